@@ -227,4 +227,15 @@ def c_eqhash(cex, obs):
     return False, 'native equality / hashes are as required'
 
 
-CONFIRM = {'eqhash': c_eqhash, 'threads': c_threads, 'rope': c_rope, 'tree': c_tree, 'decode': c_decode, 'decode_bytes': c_decode, 'decoder_step': c_decode, 'roundtrip': c_roundtrip, 'lines_only': c_lines_only, 'vlq': c_vlq}
+def c_with_indices(cex, obs):
+    chars = list(cex['text'])
+    i, j = cex['i'], cex['j']
+    exp = '' if j <= i else ''.join(chars[min(i, len(chars)):min(j, len(chars))])
+    for prof, o in obs.items():
+        if o.get('signal') or o.get('error'): return True, '%s build: the process crashed (signal %s): an unsafe precondition was violated' % (prof, o.get('signal'))
+        if o.get('panicked'): return True, '%s build panics: %s' % (prof, o.get('message'))
+        if o.get('substring') != exp: return True, '%s build: substring(%d, %d) of %r is %r, the char-wise substring is %r' % (prof, i, j, cex['text'], o.get('substring'), exp)
+    return False, 'native substring is the char-wise substring'
+
+
+CONFIRM = {'with_indices': c_with_indices, 'eqhash': c_eqhash, 'threads': c_threads, 'rope': c_rope, 'tree': c_tree, 'decode': c_decode, 'decode_bytes': c_decode, 'decoder_step': c_decode, 'roundtrip': c_roundtrip, 'lines_only': c_lines_only, 'vlq': c_vlq}
